@@ -91,7 +91,7 @@ Definition moves_branch (c : cmd) : bool :=
 (* commands that never change the stack base *)
 Definition keeps_base (c : cmd) : bool :=
   match c with
-  | CNew _ _ _ | CRefresh | CPush _ _ _ _ _ _ _ _ _ | CPop _ _ _ _ _ | CGoto _ _ _ _
+  | CNew _ _ _ | CRefresh _ | CPush _ _ _ _ _ _ _ _ _ | CPop _ _ _ _ _ | CGoto _ _ _ _
   | CFloat _ _ _ | CSink _ _ _ _ | CDelete _ _ _ _ _ _ _ _ | CHide _ | CUnhide _
   | CRename _ _ | CClean _ _ | CSpill | CInspect | CLogClear => true
   | _ => false
